@@ -1,4 +1,5 @@
 import Grexv.Model.Api
+import Grexv.Gen.SettersPy
 
 /-!
 # C14 — the Python binding returns the library's pattern in Python escape syntax
